@@ -25,3 +25,6 @@ func C02Raw(s string) *big.Int { return raw(s) }
 
 // C02Span is the tick span the generators use for the pool's price ratio.
 func (p PoolInfo) C02Span() int64 { return p.span() }
+
+// C02CoinVec renders sdk.Coins as the four denom slots of pool p (as Exec does for claims).
+func (p PoolInfo) C02CoinVec(cs sdk.Coins) []string { return p.coinVec(cs) }
